@@ -164,3 +164,89 @@ def meta_fields() -> str:
             f'Definition vcf_declared_tags : list string := {sl(declared)}.\n'
             f'Definition vcf_used_tags : list string := {sl(used)}.\n'
             f'Definition readme_vcf_tags : list string := {sl(readme_tags)}.\n')
+
+
+def _sql_of(rel: str, name: str) -> str:
+    tree = ast.parse(_src(rel))
+    for node in tree.body:
+        if isinstance(node, ast.Assign) and any(isinstance(t, ast.Name) and t.id == name for t in node.targets):
+            if isinstance(node.value, ast.Constant) and isinstance(node.value.value, str):
+                return node.value.value
+    raise FactError(f'{rel}: string constant {name} not found')
+
+
+def _order_by(sql: str) -> list[str]:
+    m = re.search(r'\border\s+by\s+([\w\s,.]+?)\s*$', sql.strip(), flags=re.I)
+    if not m:
+        return []
+    cols = [c.strip() for c in m.group(1).split(',')]
+    if not all(re.fullmatch(r'[\w.]+', c) for c in cols):
+        raise FactError(f'unrecognised ORDER BY list: {m.group(1)!r} (asc/desc/expressions are not modelled)')
+    return cols
+
+
+@extractor('OrderKey')
+def order_key() -> str:
+    """C12: the places where an output order is fixed, re-read from the source."""
+    sql = _sql_of('meta_row.py', 'sql_select_meta')
+    m = re.fullmatch(r'\s*select\s+(.*?)\s+from\s+v_meta\s+order\s+by\s+.*', sql, flags=re.S | re.I)
+    if not m:
+        raise FactError('sql_select_meta is not `select <columns> from v_meta order by ...`')
+    cols = [c.strip() for c in m.group(1).split(',')]
+    if not all(re.fullmatch(r'\w+', c) for c in cols):
+        raise FactError('sql_select_meta selects expressions, not plain columns')
+    key = _order_by(sql)
+    ppes = _order_by(_sql_of('queries.py', 'sql_select_ppes_with_offset'))
+    bgs = _order_by(_sql_of('queries.py', 'sql_select_background_variants'))
+    bgo = _order_by(_sql_of('queries.py', 'sql_select_overlapping_background_variants'))
+    ddl = open(os.path.join(common.SRC, 'valiant', 'data', 'ddl.sql')).read()
+    gc = re.search(r"group_concat\(z\.sgrna_id,\s*';'\)\s*from\s*\((.*?)\)\s*z", ddl, flags=re.S)
+    if not gc:
+        raise FactError('group_concat of sgRNA ids in v_meta not recognised')
+    gc_order = _order_by(re.sub(r'--[^\n]*', '', gc.group(1)))
+    gc_group = bool(re.search(r'group\s+by\s+t\.sgrna_id', gc.group(1), flags=re.I))
+
+    def has_call(rel: str, func: str, pred) -> bool:
+        tree = ast.parse(_src(rel))
+        for node in ast.walk(tree):
+            if isinstance(node, ast.FunctionDef) and node.name == func:
+                return any(pred(n) for n in ast.walk(node))
+        raise FactError(f'{rel}: function {func} not found')
+
+    def is_sorted_set_parse_list(n):   # sorted(set(parse_list(s)))
+        return (isinstance(n, ast.Call) and _names(n.func) == 'sorted' and len(n.args) == 1 and isinstance(n.args[0], ast.Call)
+                and _names(n.args[0].func) == 'set' and len(n.args[0].args) == 1 and isinstance(n.args[0].args[0], ast.Call)
+                and _names(n.args[0].args[0].func) == 'parse_list')
+
+    def is_sorted_sgrna(n):            # sorted(self.sgrna_ids)
+        return (isinstance(n, ast.Call) and _names(n.func) == 'sorted' and len(n.args) == 1 and not n.keywords
+                and isinstance(n.args[0], ast.Attribute) and n.args[0].attr == 'sgrna_ids')
+
+    def is_names_sort(n):              # names.sort()
+        return (isinstance(n, ast.Call) and isinstance(n.func, ast.Attribute) and n.func.attr == 'sort'
+                and _names(n.func.value) == 'names' and not n.args and not n.keywords)
+
+    def is_parse_list_strip(n):        # raw.strip() for raw in s.split(delimiter)
+        return isinstance(n, ast.Call) and isinstance(n.func, ast.Attribute) and n.func.attr == 'strip'
+
+    def is_upper(n):
+        return isinstance(n, ast.Call) and isinstance(n.func, ast.Attribute) and n.func.attr == 'upper'
+
+    b = lambda x: 'true' if x else 'false'
+    sl = lambda l: '[' + '; '.join(coq_str(x) for x in l) + ']'
+    upper_vcf = sum(1 for n in ast.walk(ast.parse(_src('custom_variant.py'))) if is_upper(n))
+    return ('From Coq Require Import String List.\nImport ListNotations.\nLocal Open Scope string_scope.\n'
+            'Definition fact_extracted : bool := true.\n'
+            f'Definition meta_select_columns : list string := {sl(cols)}.\n'
+            f'Definition meta_order_key : list string := {sl(key)}.\n'
+            f'Definition ppes_with_offset_order : list string := {sl(ppes)}.\n'
+            f'Definition background_variants_order : list string := {sl(bgs)}.\n'
+            f'Definition overlapping_background_order : list string := {sl(bgo)}.\n'
+            f'Definition sgrna_concat_order : list string := {sl(gc_order)}.\n'
+            f'Definition sgrna_concat_grouped : bool := {b(gc_group)}.\n'
+            f"Definition parse_mutators_sorted_set : bool := {b(has_call('loaders/base_targeton_config.py', 'parse_mutators', is_sorted_set_parse_list))}.\n"
+            f"Definition parse_list_strips : bool := {b(has_call('loaders/utils.py', 'parse_list', is_parse_list_strip))}.\n"
+            f"Definition targeton_name_sorted_ids : bool := {b(has_call('loaders/targeton_config.py', 'name', is_sorted_sgrna))}.\n"
+            f"Definition unique_names_sorted : bool := {b(has_call('meta_table.py', 'to_csv', is_names_sort))}.\n"
+            f"Definition fetch_sequence_upper : bool := {b(has_call('sge_utils.py', 'fetch_sequence', is_upper))}.\n"
+            f'Definition custom_variant_upper_calls : nat := {upper_vcf}.\n')
